@@ -13,7 +13,7 @@ package driver
 //   DeleteKey(addr, wrong password) for addr in {D1, F}; ExportKey(D1, right / wrong),
 //   ExportKey(F, right); ExportMasterDerivationKey(right / wrong); RenameWallet(right / wrong);
 //   close + re-fetch (FetchWallet, Init(wrong) must fail, Init(right)).
-// Bound: every sequence of <= 4 operations (quick) / <= 6 (thorough); states merged by the
+// Bound: every sequence of <= 4 operations (quick) / <= 7 (thorough); states merged by the
 // wallet's real content (keys table with key_idx, decrypted max key index, wallet name).
 // After every operation: ListKeys (set and no duplicates), wallet name, ExportKey with the
 // right and the wrong password for every address of the universe, ExportMasterDerivationKey
@@ -689,7 +689,7 @@ func TestVerif_C46(t *testing.T) {
 		Key:       h.key,
 		Invariant: h.invariant,
 		Final:     h.final,
-		MaxDepth:  ve.Pick(4, 6),
+		MaxDepth:  ve.Pick(4, 7),
 	}
 	res := q.Explore(r)
 	var cov ve.Coverage
